@@ -128,7 +128,12 @@ func (x *Exec) call0(st *State, e *ast.CallExpr) []Val {
 				ref = v.Arr
 			}
 			now := x.heapGet(st, "alloc", SArr(SInt, SBool))
-			return []Val{{Typ: types.Typ[types.Bool], T: x.c.And(x.c.Neq(ref, x.c.Int(0)), x.c.Not(x.c.Select(al, ref)), x.c.Select(now, ref))}}
+			if preBrk, ok := pre.heap["ghost.brk"]; ok {
+				nowBrk := x.heapGet(st, "ghost.brk", SInt)
+				x.assume(st, x.c.Implies(x.c.And(x.c.Neq(ref, x.c.Int(0)), x.c.Not(x.c.Select(al, ref)), x.c.Select(now, ref)), x.c.And(x.c.Ge(ref, preBrk), x.c.Lt(ref, nowBrk))))
+			}
+			// a freshly allocated object is a root object (not an embedded address)
+			return []Val{{Typ: types.Typ[types.Bool], T: x.c.And(x.c.Neq(ref, x.c.Int(0)), x.c.Not(x.c.Select(al, ref)), x.c.Select(now, ref), x.c.Eq(x.c.Mod(ref, x.c.Int(embN)), x.c.Int(0)))}}
 		case "sameArray":
 			a := x.expr(st, e.Args[0])
 			b := x.expr(st, e.Args[1])
@@ -171,6 +176,12 @@ func (x *Exec) call0(st *State, e *ast.CallExpr) []Val {
 		if ucon := x.eng.prog.Contracts[key]; ucon != nil {
 			if err := x.eng.prog.Bind(ucon); err != nil {
 				panic(err)
+			}
+			if !ucon.Uninterp && !ucon.Pure && (x.inGhost > 0 || (x.noOblig == 0 && !x.specMode)) {
+				// a lemma (ghost function with a contract) called from ghost code or from another
+				// lemma's body: its contract is applied like that of any function
+				args := x.evalArgs(st, e, sig)
+				return x.callContract(st, ucon, recv, args, e)
 			}
 			if ucon.Uninterp {
 				var ts []*Term
@@ -681,6 +692,10 @@ func (x *Exec) callContract(st *State, con *Contract, recv *Val, args []Val, e *
 		r := c.Bound("r", SInt)
 		x.assumeGlobal(st, c.Forall([]*Term{r}, c.Implies(c.Select(cur, r), c.Select(na, r)), []*Term{c.Select(na, r)}))
 		st.heap["alloc"] = na
+		brk := x.heapGet(st, "ghost.brk", SInt)
+		nb := c.Fresh("call_brk", SInt)
+		x.assumeGlobal(st, c.Ge(nb, brk))
+		st.heap["ghost.brk"] = nb
 	}
 	// results
 	var results []Val
@@ -868,6 +883,11 @@ func (x *Exec) havocLoc(st *State, loc modLoc) {
 	c := x.c
 	cur := x.heapGet(st, loc.comp, loc.sort)
 	if loc.whole {
+		if loc.comp == "ghost.iofail" {
+			// the failure flag is sticky: a callee can only set it
+			x.heapSet(st, loc.comp, c.Or(cur, c.Fresh("hv_iofail", SBool)))
+			return
+		}
 		x.heapSet(st, loc.comp, c.Fresh("hv_"+loc.comp, loc.sort))
 		return
 	}
@@ -1167,9 +1187,55 @@ func (x *Exec) scanCallMods(ms *modSet, e *ast.CallExpr) {
 		}
 		ms.add("alloc", SArr(SInt, SBool))
 		for _, mc := range con.Modifies {
+			if x.globalOnlyClause(mc) {
+				// precise: the designator denotes the same locations at the loop head
+				before := map[string]bool{}
+				for k := range ms.imprecise {
+					before[k] = true
+				}
+				sub := &modSet{vars: map[types.Object]bool{}, comps: map[string]Sort{}, imprecise: map[string]bool{}, info: x.info}
+				x.scanModClause(sub, mc)
+				var names []string
+				for k, srt := range sub.comps {
+					ms.comps[k] = srt
+					names = append(names, k)
+				}
+				ms.writes = append(ms.writes, lvWrite{comps: names, clause: mc, info: mc.Info})
+				continue
+			}
 			x.scanModClause(ms, mc)
 		}
 	}
+}
+
+// globalOnlyClause: the designator mentions no parameter or local (only package-level names).
+func (x *Exec) globalOnlyClause(mc *Clause) bool {
+	ok := true
+	ast.Inspect(mc.Expr, func(n ast.Node) bool {
+		id, isId := n.(*ast.Ident)
+		if !isId {
+			return true
+		}
+		obj := mc.Info.Uses[id]
+		switch o := obj.(type) {
+		case *types.Var:
+			if o.IsField() {
+				return true
+			}
+			if !isPkgLevel(o) {
+				ok = false
+			}
+		case nil:
+			// field selectors have no Uses entry in some positions
+		}
+		return true
+	})
+	if call, isCall := ast.Unparen(mc.Expr).(*ast.CallExpr); isCall {
+		if id, isId := call.Fun.(*ast.Ident); isId && (id.Name == "ghostFail" || id.Name == "ghostSpawn" || id.Name == "ghostClock" || id.Name == "ghostIO") {
+			return false // whole-component designators stay as they are
+		}
+	}
+	return ok
 }
 
 // scanModClause: components named by a modifies designator (by type only).
